@@ -143,6 +143,9 @@ func ctxToHeaders(ctx freighter.Context) http.Header {
 
 type clientStream[RQ, RS freighter.Payload] struct {
 	streamCore[RS, RQ]
+	// receiveErr caches the terminal result of Receive so that the connection is
+	// closed exactly once and repeated calls keep returning the same error.
+	receiveErr error
 	sendClosed bool
 }
 
@@ -161,7 +164,10 @@ func (s *clientStream[RQ, RS]) Send(req RQ) error {
 func (s *clientStream[RQ, RS]) Receive() (RS, error) {
 	pld, err := s.streamCore.Receive()
 	if err != nil {
-		return pld, errors.Combine(err, s.close())
+		if s.receiveErr == nil {
+			s.receiveErr = errors.Combine(err, s.close())
+		}
+		return pld, s.receiveErr
 	}
 	return pld, nil
 }
